@@ -403,6 +403,10 @@ func (d *FakeDB) Plot() chan error {
 		}
 		d.Running = false
 		d.mu.Unlock()
+		var perr error
+		if out == "error" {
+			perr = errors.New("scripted plot failure: input/output error")
+		}
 		c.mu.Lock()
 		c.InFlight--
 		c.mu.Unlock()
@@ -410,7 +414,7 @@ func (d *FakeDB) Plot() chan error {
 			c.events <- Event{Kind: "plot-end", SID: d.Key, Out: out}
 		}
 		close(d.ended)
-		res <- nil
+		res <- perr
 	}()
 	return res
 }
